@@ -151,6 +151,10 @@ fn gen(t: &mut Tape, _tier: Tier) -> Scenario {
         let n = sc.b("input").len();
         let ops = draw_history(t, n, &[], false);
         sc.set_l("ops", ops);
+        // a quarter of the Stream runs allow incomplete input: finish then skips its
+        // last decode pass, so the limit may never be reached - but a limited run that
+        // succeeds must still deliver exactly what the unlimited run delivers
+        opts.allow_incomplete = t.below(4) == 0;
     }
     if which != 2 && t.below(2) == 0 {
         sc.set_l("src_script", crate::gen::draw_script(t));
@@ -175,7 +179,8 @@ fn run(sc: &Scenario, opts: &OptSpec, measure: bool) -> (Verdict, Vec<u8>, Optio
     let (mut sink, st) = SimSink::new(Some(expect), &[], Faults::none(), Faults::none());
     // reserve the sink's storage up front so that its growth is not attributed
     // to the decoder
-    st.borrow_mut().accepted.reserve(sc.b("expect").len() + 16);
+    // (+ the few symbols a decoder produces past the model under a lying size)
+    st.borrow_mut().accepted.reserve(sc.b("expect").len() + 8 * 273 + 16);
     let mut events = 0u64;
     let base = if measure { heap::begin() } else { 0 };
     let v = if ep == EP_STREAM {
@@ -248,7 +253,20 @@ fn exec(sc0: &Scenario, ctx: &mut Ctx) -> Vec<Violation> {
         }
     }
     let lying_size = sc.i("lying_size") == 1;
-    if lying_size {
+    if opts.allow_incomplete {
+        // finish neither verifies the end of the stream nor decodes the look-ahead tail:
+        // of the unlimited run only "Ok, and no wrong byte" can be demanded here
+        if lying_size {
+            ctx.stats.hit("probe.header_announces_more_than_the_payload_holds");
+        }
+        let e = sc.b("expect");
+        // (a header lying about the size makes the decoder go on into the coder's flush
+        // bytes, which decode to a few more symbols: then only the common part is compared)
+        let n = out0.len().min(e.len());
+        if !v0.is_ok() || (out0.len() > e.len() && !lying_size) || out0[..n] != e[..n] {
+            return mk("unlimited_run_wrong", format!("incomplete input allowed, without a limit: {} with {} bytes", v0.short(), out0.len()));
+        }
+    } else if lying_size {
         ctx.stats.hit("probe.header_announces_more_than_the_payload_holds");
         if v0.is_ok() {
             return mk("unlimited_run_wrong", "declared size exceeds the payload, yet success".into());
@@ -259,10 +277,32 @@ fn exec(sc0: &Scenario, ctx: &mut Ctx) -> Vec<Violation> {
     if sc.i("lying_header") == 1 {
         ctx.stats.hit("probe.header_announces_huge_dictionary");
     }
-    if lying_size {
+    if lying_size && !opts.allow_incomplete {
         // both runs fail at the end of the input; delivered bytes must be a prefix
         if v1.is_ok() || bad1.is_some() {
             return mk("limit_changes_result", format!("limited run: {}", v1.short()));
+        }
+    } else if opts.allow_incomplete {
+        ctx.stats.hit("arm.stream_with_incomplete_input_allowed");
+        if v1.is_ok() && (out1 != out0 || !v0.is_ok()) {
+            return mk(
+                "limit_changes_result",
+                format!("incomplete input allowed, limit {}: the limited run succeeded with {} bytes, the unlimited one {} with {}", m, out1.len(), v0.short(), out0.len()),
+            );
+        }
+        // (under a lying size the decoder produces a few symbols more than the model)
+        let eff_need = if lying_size { need + 8 * 273 } else { need };
+        if !v1.is_ok() && m >= eff_need {
+            return mk(
+                "limit_changes_result",
+                format!("limit {} >= need {}: limited run {} (unlimited {})", m, eff_need, v1.short(), v0.short()),
+            );
+        }
+        if let Some(off) = bad1 {
+            // (bytes past the model's end under a lying size are the flush-byte symbols)
+            if !(lying_size && off >= sc.b("expect").len()) {
+                return mk("output_not_prefix", "bytes delivered under the limit are not a prefix".into());
+            }
         }
     } else if m >= need {
         if v1.kind() != v0.kind() || out1 != out0 {
